@@ -33,6 +33,7 @@ type CaseC20 struct {
 	Recast bool                   `json:"recast"`
 	Sub    []Cond                 `json:"sub,omitempty"`
 	Bulk   int                    `json:"bulk,omitempty"` // the message handler of the stream wrappers returns false at this message (0: never, -1: clause off)
+	NanInf bool                   `json:"nan_inf,omitempty"`
 }
 
 func init() { register("C20", checkC20) }
@@ -100,6 +101,7 @@ func genC20(t *rapid.T) CaseC20 {
 	}
 	c.Bulk = rapid.IntRange(-1, 3).Draw(t, "bulk")
 	c.Safe = rapid.Bool().Draw(t, "safe")
+	c.NanInf = rapid.IntRange(0, 3).Draw(t, "naninf") == 0
 	c.Recast = rapid.Bool().Draw(t, "recast")
 	if rapid.IntRange(0, 3).Draw(t, "withsub") == 0 {
 		c.Sub = genCondsFrom(t, 1, 2, refEval(c.Value, c.Steps))
@@ -170,6 +172,12 @@ func checkC20(c CaseC20, info *Info) *Failure {
 		return nil
 	}
 	defer resetOptions()
+	if c.NanInf {
+		// one decoder option the wrappers have a say in as well (x2j-wrapper has its own CastNanInf): set in the core,
+		// it is in force for the wrappers' decoding too
+		mxj.CastNanInf(true)
+		info.Class("CastNanInf in force")
+	}
 	doc := []byte(c.Doc.String())
 	dpath := strings.Join(c.DPath, ".")
 	vpath := pathString(c.Steps)
@@ -721,6 +729,7 @@ func (p plainReader) Read(b []byte) (int, error) { return p.r.Read(b) }
 // checkC20bulk: x2j-wrapper.XmlMsgsFromReader[AsJson] is the loop of mxj.NewMapXmlReader calls that
 // mxj.HandleXmlReader runs: same messages in the same order, same stop, and the reader is left where the core leaves it.
 func checkC20bulk(c CaseC20, doc []byte, mism func(string, interface{}, interface{}) *Failure, info *Info) *Failure {
+	mxj.CastNanInf(false) // what the AsJson form does with a message that cannot be encoded (NaN) is not part of this clause
 	if c.Bulk < 0 {
 		return nil
 	}
